@@ -31,6 +31,10 @@ pub struct Framed {
     codec: Codec,
     buffer: BytesMut,
     verify_version: bool,
+    // A keep-alive whose reply has not been written completely yet. Kept here, and not in the
+    // future returned by read(), so that dropping that future (select!, timeout) loses nothing.
+    pending_reply: BytesMut,
+    pending_packet: Option<Packet>,
 }
 
 impl Framed {
@@ -43,6 +47,8 @@ impl Framed {
             codec,
             buffer,
             verify_version: false,
+            pending_reply: BytesMut::new(),
+            pending_packet: None,
         }
     }
 
@@ -86,6 +92,14 @@ impl Framed {
     /// Asynchronously wait for a packet from the inner network.
     pub async fn read(&mut self) -> Result<Packet> {
         loop {
+            // finish the keep-alive reply that this or an earlier (cancelled) call started, then
+            // hand out the keep-alive itself. write_all_buf advances the buffer as bytes are
+            // accepted, so being dropped half way neither repeats nor loses any of them.
+            self.flush_pending_reply().await?;
+            if let Some(packet) = self.pending_packet.take() {
+                return Ok(packet);
+            }
+
             if_chain! {
                 if !self.buffer.is_empty();
                 if let Some(packet) = self.codec.decode(&mut self.buffer)?;
@@ -98,7 +112,10 @@ impl Framed {
                     // keepalive
                     if let Some(pong) = packet.maybe_pong() {
                         tracing::debug!("Ping? Pong!");
-                        self.write(pong).await?;
+                        let reply = self.codec.encode(&pong)?;
+                        self.pending_reply.extend_from_slice(&reply);
+                        self.pending_packet = Some(packet);
+                        continue;
                     }
 
                     return Ok(packet);
@@ -130,8 +147,19 @@ impl Framed {
         }
     }
 
+    async fn flush_pending_reply(&mut self) -> Result<()> {
+        if !self.pending_reply.is_empty() {
+            self.inner.write_all_buf(&mut self.pending_reply).await?;
+        }
+
+        Ok(())
+    }
+
     /// Asynchronously write a packet to the inner network.
     pub async fn write<P: Into<Packet>>(&mut self, packet: P) -> Result<()> {
+        // never start a new frame in the middle of an unfinished keep-alive reply
+        self.flush_pending_reply().await?;
+
         let mut buf = self.codec.encode(&packet.into())?;
         if !buf.is_empty() {
             self.inner.write_all_buf(&mut buf).await?;
